@@ -84,7 +84,27 @@ func (c *FnCtx) loopEnter(frame *Frame, l *Loop, from *ssa.BasicBlock, st *State
 		}
 		st.assume(t)
 	}
+	// snapshot for iterstart(...): the heap in which an arbitrary iteration starts
+	{
+		ni := make(map[int]map[string]string, len(st.loopIter)+1)
+		for k, v := range st.loopIter {
+			ni[k] = v
+		}
+		ni[frame.id*1000+l.Ord] = copyHeap(st.heap)
+		st.loopIter = ni
+	}
 	c.execInstrs(frame, l.Header, firstNonPhi(l.Header), st)
+}
+
+// innermostLoop returns the smallest loop of the frame that contains block b (nil if none).
+func innermostLoop(frame *Frame, b *ssa.BasicBlock) *Loop {
+	var best *Loop
+	for _, l := range frame.loops {
+		if l.Blocks[b] && (best == nil || len(l.Blocks) < len(best.Blocks)) {
+			best = l
+		}
+	}
+	return best
 }
 
 func (c *FnCtx) loopBack(frame *Frame, l *Loop, from *ssa.BasicBlock, st *State) {
